@@ -18,20 +18,21 @@ const (
 
 // hubPre: an arbitrary hub state over the two remote SKIs A and B.
 type hubPre struct {
-	e          *hEnv
-	sA, sB     *api.ServiceDetails
-	cA         *vConn // registered connection of A (nil: none)
-	intentA    bool   // ghost: user registered A and has not unregistered / cancelled since
-	helloOkA   bool   // ghost: a live connection of A reached hello-ok
-	trustA0    bool
-	trustB0    bool
-	stateA0    api.ConnectionState
-	stateB0    api.ConnectionState
-	counterA   bool
-	connStateA model.ShipMessageExchangeState
+	e                *hEnv
+	sA, sB           *api.ServiceDetails
+	cA               *vConn // registered connection of A (nil: none)
+	intentA          bool   // ghost: user registered A and has not unregistered / cancelled since
+	helloOkA         bool   // ghost: a live connection of A reached hello-ok
+	trustA0          bool
+	trustB0          bool
+	stateA0          api.ConnectionState
+	stateB0          api.ConnectionState
+	counterA         bool
+	connStateA       model.ShipMessageExchangeState
 	attemptRunningA  bool
 	mdnsHadA         bool
 	closedRegistered bool
+	shipIDA0         string // SHIP ID the application supplied for A ("" = none)
 }
 
 func newHubPre(withConn bool) *hubPre {
@@ -56,6 +57,9 @@ func newHubPre(withConn bool) *hubPre {
 		e.h.connectionAttemptRunning[skiA] = true
 		p.attemptRunningA = true
 	}
+	// the application supplied a SHIP ID for A (nothing in the hub branches on it, so no case split is needed)
+	p.shipIDA0 = "pinned-ship-id-of-A"
+	p.sA.SetShipID(p.shipIDA0)
 	p.intentA = zzvrt.Bool("A.intent")
 	p.helloOkA = zzvrt.Bool("A.helloOk")
 	// invariant: trust or a queued dial request come from the user's registration or from a hello-ok
@@ -157,6 +161,14 @@ func isReportable(s int) bool {
 	return true
 }
 
+// displayForm: the SKI as users see and type it (upper case, grouped)
+func displayForm(x string) string {
+	if x == skiA {
+		return "AAAA AAAA-AAAA AAAA-AAAA AAAA-AAAA AAAA-AAAA AAAA"
+	}
+	return "BBBB BBBB-BBBB BBBB-BBBB BBBB-BBBB BBBB-BBBB BBBB"
+}
+
 func symSKI() string {
 	if zzvrt.Bool("op.onA") {
 		return skiA
@@ -175,8 +187,21 @@ func H_Hub_Step() {
 		h.Shutdown()
 		p.e.log.Ev = nil
 	}
-	p.doOp(op, x)
+	// operations the application calls take the SKI in any spelling (C15); everything else carries the canonical form
+	arg := x
+	switch op {
+	case opRegister, opUnregister, opCancel, opDisconnect, opPairedQuery, opAllowWait, opPairingDetail:
+		if zzvrt.Bool("op.displayform") {
+			arg = displayForm(x)
+		}
+	}
+	p.doOp(op, arg)
 	onA := x == skiA
+
+	// ---- C09 (hub part): a SHIP ID the application supplied is never replaced by the hub (mDNS identifiers, reports)
+	if p.shipIDA0 != "" {
+		zzvrt.Assert(p.sA.ShipID() == p.shipIDA0, "C09.pinned-ship-id-changed-by-the-hub")
+	}
 
 	// ---- C01 (hub part): trust is only switched on by register or by a hello-ok report
 	if !p.trustA0 && p.sA.Trusted() {
